@@ -1,16 +1,21 @@
 //! Independent reference implementations, written from the standards' text.
 pub mod sm3;
+pub mod sm4;
 
 pub fn self_test_all() -> Result<usize, String> {
     let mut n = 0;
     sm3::self_test()?;
     n += 3;
+    sm4::self_test()?;
+    n += 4;
     Ok(n)
 }
 
 /// Self-tests needed before property `prop` is believed.
 pub fn self_test_for(prop: &str) -> Result<(), String> {
     sm3::self_test()?;
-    let _ = prop;
+    if matches!(prop, "C02" | "C07" | "C20") {
+        sm4::self_test()?;
+    }
     Ok(())
 }
